@@ -645,7 +645,7 @@ class Interp:
         if cc == 'val':
             return self.const_struct(st, c['val'])
         if cc == 'fn':
-            return ('fn', c['id'])
+            return ('fn', c['id'], (c.get('ty') or {}).get('args'))
         if cc == 'other':
             named = c.get('named')
             if named in self.bodies:
@@ -668,7 +668,7 @@ class Interp:
                 except Exception:
                     pass
             if c['ty']['k'] == 'fndef':
-                return ('fn', c['ty']['id'])
+                return ('fn', c['ty']['id'], c['ty'].get('args'))      # (the generic arguments as printed by rustc, e.g. "[u32]")
             if c['ty']['k'] == 'closure':
                 return ('clo', c['ty']['id'], ())
             return self.top(st, c['ty'], 'const')
@@ -2022,7 +2022,7 @@ class Interp:
                 for tgt, s in out:
                     bv = D.get_iv(s, vid)
                     xl, xh = D.get_iv(s, x)
-                    if bv[0] == bv[1] and ((bv[0] == 1) == (tm[0] == 'Ne')) and xl < cval < xh and xl != -D.INF and xh != D.INF:
+                    if bv[0] == bv[1] and ((bv[0] == 1) == (tm[0] == 'Ne')) and xl < cval < xh and xl != -D.INF and xh != D.INF and xh - xl <= 1024:      # (small ranges only: bytes, field values)
                         s_lo = s.clone()
                         if D.set_iv(s_lo, x, xl, cval - 1):
                             new.append((tgt, s_lo))
@@ -2155,7 +2155,15 @@ class Interp:
         if clo[0] == 'fn':
             if clo[1] in self.bodies:
                 return self.call_body(st, clo[1], list(args), site)
-            return self.do_call(st, clo[1], clo[1], list(args), None, dict(site, callee=clo[1]) if isinstance(site, dict) else site)
+            dty_ = None
+            ga = clo[2] if len(clo) > 2 and isinstance(clo[2], str) else None
+            if clo[1] == 'core::str::<impl str>::parse' and ga and ga.startswith('[') and ga.endswith(']') and ',' not in ga:
+                # `str::parse::<F>` passed as a function: its result type is Result<F, _>
+                from .models import ty_of_name, RESULT
+                ft = ty_of_name(ga[1:-1])
+                if ft is not None:
+                    dty_ = {'k': 'adt', 'path': RESULT, 'args': [ft, {'k': 'other'}]}
+            return self.do_call(st, clo[1], clo[1], list(args), dty_, dict(site, callee=clo[1]) if isinstance(site, dict) else site)
         if clo[0] != 'clo' or clo[1] not in self.bodies:
             self.note('call of unknown closure')
             return None
